@@ -9,9 +9,10 @@ node kind, set-then-get, and all (value, increment) pairs of the integer lattice
 Direct oracle: a Python model of the DOCUMENTED behaviour (json_object.h + the property text), in
 exact big-integer arithmetic; it shares nothing with the Coq model.
 
-(node, op) pairs that are known to end in undefined behaviour / a documented-behaviour failure
-are put on lines of their own at the END of the script (a UBSan abort loses the whole line and
-restarts the driver), so that every other line is checked in full.
+(node, op) pairs that ended in undefined behaviour / a documented-behaviour failure before the
+`fix:` commits (see known_findings.json, status fixed) keep their stable class ids and stay on lines
+of their own at the END of the script (a UBSan abort loses the whole line and restarts the driver),
+so that a regression is named and every other line is still checked in full.
 """
 import ctypes, re, struct, sys, os
 sys.path.insert(0, os.path.join(os.path.dirname(os.path.abspath(__file__)), "..", "lib"))
@@ -46,7 +47,7 @@ B_2P63 = 0x43e0000000000000
 B_2P64 = 0x43f0000000000000
 WS = b" \t\n\v\f\r"
 
-# ------------------------------------------------------------------ stable finding classes
+# ------------------------------------------------------------------ stable finding classes (all fixed in /repo)
 CLS_GL = "get_int64_dbl_2p63_ub"          # json_object_get_int64(double 2^63): undefined double->int64 cast
 CLS_GU = "get_uint64_dbl_2p64_ub"         # json_object_get_uint64(double 2^64): undefined double->uint64 cast
 CLS_INC = "inc_uint_int64min_ub"          # json_object_int_inc(uint64 node, INT64_MIN): -val overflows
@@ -160,10 +161,11 @@ def spec_get_int(node, lo, hi, nanv):
         out = fin_cmp(d, lo) < 0 or fin_cmp(d, hi) > 0
         return clamp(lo, hi, fin_trunc(d)), {"ERANGE" if out else "0"}
     v, neg = doc_parse_int(node)
-    if lo == 0 and neg and v != 0:
-        # a negative text read as uint64: "no conversion exists" (EINVAL) and "exceeds the range" (ERANGE)
-        # are both documented readings; the value is the nearest bound, 0
-        return 0, {"EINVAL", "ERANGE"}
+    if lo == 0 and neg:
+        # a text with a '-' sign has no uint64 conversion: json_parse_uint64 refuses it (also "-0": pinned
+        # by tests/test_parse_int64), and "if no conversion exists then 0 is returned and errno is set to
+        # EINVAL" (json_object.h)
+        return 0, {"EINVAL"}
     if v is None:
         return 0, {"EINVAL"}
     return clamp(lo, hi, v), {"0" if lo <= v <= hi else "ERANGE"}
@@ -252,7 +254,7 @@ def ndump(node):
 
 
 def known_witness(op, arg, node):
-    """the class of the known finding this (op, node) pair falls into, or None"""
+    """the class of the (repaired) finding this (op, node) pair would fall into on a regression, or None"""
     k = kind(node)
     if op == "gl" and k == "dbl" and node[1] == B_2P63:
         return CLS_GL
@@ -578,11 +580,10 @@ def search(rng, broken_lines):
 LEVEL_TEXT = ("Machine-checked (Coq, case analysis + lia, no axioms, no value bound): for every node kind and every value the model of "
               "get_boolean/get_int/get_int64/get_uint64/get_double returns clamp_T(trunc(value)) with the documented errno and never "
               "reaches an undefined conversion; set-then-get is the identity; json_object_int_inc adds exactly for ALL (value, increment) "
-              "pairs with the int64<->uint64 representation switch and saturation at INT64_MIN/UINT64_MAX.  Where the current code does "
-              "not satisfy the full statement the theorem is proved under its exact guard (`_partial`) and the unguarded statement is "
-              "refuted by a computed witness (`_refuted`): get_int64(double 2^63), get_uint64(double 2^64), int_inc(uint64 node, "
-              "INT64_MIN) reach undefined behaviour; get_uint64 of a string with '-' after non-space whitespace returns the wrapped "
-              "value, and after spaces only fails with errno left 0.  The model is tied to json_object.c/json_util.c on every run by "
+              "pairs with the int64<->uint64 representation switch and saturation at INT64_MIN/UINT64_MAX.  Five of these statements were "
+              "refuted by the code before the C10 repairs (known_findings.json, status fixed); after the five `fix:` commits (get_int64/get_uint64 `>=` at 2^63/2^64, "
+              "unsigned negation in int_inc, json_parse_uint64 whitespace and errno) every statement holds at full strength and "
+              "there is no `_partial` theorem left.  The model is tied to json_object.c/json_util.c on every run by "
               "differential execution of the extracted model against the UBSan build on boundary lattices, and an independent Python "
               "model of the documented behaviour judges the implementation's own output.")
 LEVEL_NOTE = ("Trusted: Coq kernel; extraction + OCaml glue; harness; libc strtod (oracle argument; cross-checked against Python float() "
